@@ -90,5 +90,54 @@ def dynamics_with_controls(inp):
     return r
 
 
+def tebd_controls(inp):
+    """PT-TEBD on an uncoupled two-site chain with pre- and post-measurement chain controls (also registered out of
+    chronological order): recorded states against direct propagation of each site"""
+    import oqupy
+    from scipy.linalg import expm
+    ops = oqupy.operators
+    N, dt, steps = 2, 0.1, 4
+    hs = [0.3 * ops.sigma('x') + 0.1 * ops.sigma('z'), 0.5 * ops.sigma('y')]
+    kick = ops.left_right_super(expm(-0.4j * ops.sigma('y')), expm(0.4j * ops.sigma('y')))
+    damp = ops.left_right_super(np.diag([1.0, 0.5]), np.diag([1.0, 0.5]))
+    sched = [(kick, 0, 2, False), (damp, 1, 1, True), (damp, 0, 2, True), (kick, 1, 3, False), (damp, 0, 0, False)]
+    bad = []
+    for order_of_registration in (sched, sched[::-1]):
+        chain = oqupy.SystemChain(hilbert_space_dimensions=[2] * N)
+        for n in range(N):
+            chain.add_site_hamiltonian(site=n, hamiltonian=hs[n])
+        cc = oqupy.ChainControl([2] * N)
+        for sup, site, step, post in order_of_registration:
+            cc.add_single_site_control(sup, site, step, post=post)
+        states = [ops.spin_dm('z+'), ops.spin_dm('x+')]
+        t = oqupy.PtTebd(initial_augmented_mps=oqupy.AugmentedMPS(states), system_chain=chain, process_tensors=[None] * N,
+                         parameters=oqupy.PtTebdParameters(dt=dt, order=2, epsrel=1e-10), dynamics_sites=[0, 1], chain_control=cc, backend_config={})
+        r = t.compute(steps, progress_type='silent')
+        single = []
+        for n in range(N):
+            L = oqupy.System(hs[n]).liouvillian()
+            v = states[n].reshape(-1).astype(complex)
+            want = []
+            for k in range(steps + 1):
+                for sup, site, step, post in sched:
+                    if site == n and step == k and not post:
+                        v = sup @ v
+                want.append(v.reshape(2, 2).copy())
+                for sup, site, step, post in sched:
+                    if site == n and step == k and post:
+                        v = sup @ v
+                v = expm(L * dt) @ v
+            single.append(np.array(want))
+        for n in range(N):
+            # the joint state is a product; a control that does not preserve the trace on the OTHER site rescales the reduced state
+            other = np.array([np.trace(x) for x in single[1 - n]])
+            want = single[n] * other[:, None, None]
+            got = np.array(r['dynamics'][n].states)
+            dev = float(np.abs(got - want).max())
+            if dev > 1e-8:
+                bad.append({'site': n, 'controls registered in reverse': order_of_registration is not sched, 'max deviation': dev})
+    return {'violates': bool(bad), 'detail': bad}
+
+
 # thorough tier (bounded native sweeps): (function, inputs, obligation of the open finding it reproduces or None)
-THOROUGH = [('chain_order', {}, None), ('control_order', {}, None), ('dynamics_with_controls', {}, None)]
+THOROUGH = [('chain_order', {}, None), ('control_order', {}, None), ('dynamics_with_controls', {}, None), ('tebd_controls', {}, None)]
